@@ -197,3 +197,33 @@ let check_mirror (kind:string) (a:pline) (bl:string) =
           if fb (get "ch" o) <> get "ch" o2 || fb (get "pin" o) <> get "pin" o2 then mismatch "mirror_succ_caches" ctx) sa;
     if note_distinct ("M" ^ a.enc ^ kind) then begin bump "distinct_nontrivial"; sample "mirror_pair" (a.enc ^ " <-> " ^ b.enc) end
   end
+
+
+(* "coqcases" mode: for the first positions of the stream, emit a Coq file that recomputes the
+   model's observables INSIDE Coq (vm_compute) and compares them with the values the extracted
+   code computed here; this guards the extraction and this driver (DESIGN 4.2). *)
+let coq_of_pc = function
+  | None -> "None"
+  | Some (t,c) -> Printf.sprintf "Some (%s,%s)"
+                    (match t with Pawn -> "Pawn" | Knight -> "Knight" | Bishop -> "Bishop" | Rook -> "Rook" | Queen -> "Queen" | King -> "King")
+                    (match c with White -> "White" | Black -> "Black")
+let coqcases_count = ref 0
+let emit_coqcase (pl:pline) : unit =
+  if !coqcases_count = 0 then begin
+    print_string "From Chess Require Import Model.MoveGen.\nOpen Scope N_scope.\n";
+    print_string "Definition mv_eqb (a:cmove) (t:N*N*N) : bool := let '(s,d,p) := t in (msrc a =? s) && (mdst a =? d) && (match mpromo a with None => 0 | Some Queen => 1 | Some Knight => 2 | Some Rook => 3 | Some Bishop => 4 | Some Pawn => 5 | Some King => 6 end =? p).\n";
+    print_string "Fixpoint mvs_eqb (l:list cmove) (r:list (N*N*N)) : bool := match l, r with [], [] => true | a::l', t::r' => mv_eqb a t && mvs_eqb l' r' | _,_ => false end.\n"
+  end;
+  if !coqcases_count < 12 then begin
+    incr coqcases_count;
+    let bb = builder_of_enc pl.enc in
+    let b = from_builder_raw bb in
+    let mvs = List.map triple_of_cmove (moves_of b) in
+    Printf.printf "Eval vm_compute in (let b := from_builder_raw {| bpieces := [%s]; bstm := %s; bcrW := %d; bcrB := %d; bep := %s |} in\n  (get_hash b =? %s) && (checkers b =? %s) && (pinned b =? %s) && mvs_eqb (moves_of b) [%s] && (len (new_legal b) =? %d)).\n"
+      (String.concat "; " (List.map coq_of_pc bb.bpieces))
+      (match bb.bstm with White -> "White" | Black -> "Black") (int_of_n bb.bcrW) (int_of_n bb.bcrB)
+      (match bb.bep with None -> "None" | Some f -> Printf.sprintf "(Some %d)" (int_of_n f))
+      (u64s_of_n (get_hash b)) (u64s_of_n b.checkers) (u64s_of_n b.pinned)
+      (String.concat "; " (List.map (fun (a,d,c) -> Printf.sprintf "(%d,%d,%d)" a d c) mvs))
+      (List.length mvs)
+  end
